@@ -413,24 +413,13 @@ def check_c14(case, rec, m, tally):
         am = [t for t, w in m['allocs']]
         if got_alloc != am:
             mism.append(dict(what='rebalance instants', impl=got_alloc[:8], model=am[:8]))
-        for a, (t, w) in zip(rec['allocs_tap'], m['allocs']):
-            if a['alloc'] is not None and [k for k, v in a['alloc']] != [k for k, v in w]:
-                mism.append(dict(what='allocation record keys at %d' % t, impl=[k for k, v in a['alloc']], model=[k for k, v in w]))
-                break
         if got_eq != [t for t, v in m['equity']]:
             mism.append(dict(what='equity dates', impl=len(got_eq), model=len(m['equity'])))
-        if sorted(set(t['time'] for t in rec['txns'])) != sorted(set(x[0] for x in m['fills'])):
-            mism.append(dict(what='fill instants', impl=sorted(set(t['time'] for t in rec['txns']))[:6], model=sorted(set(x[0] for x in m['fills']))[:6]))
         tbl = rec.get('alloc_table')
         if isinstance(tbl, list) and rec['target_allocations']:
-            tm = [(d, None if r is None else [k for k, v in r]) for d, r in m['table']]
-            ti = []
-            for d, r in tbl:
-                present = [c for c, v in r if v is not None]
-                ti.append((d, present if present else None))
-            tm2 = [(d, ks if ks else None) for d, ks in tm]
-            if [d for d, _ in ti] != [d for d, _ in tm2] or any((a is None) != (b is None) or (a is not None and sorted(a) != sorted(b)) for (_, a), (_, b) in zip(ti, tm2)):
-                mism.append(dict(what='allocation table shape', impl=ti[:4], model=tm2[:4]))
+            # dates of the table only: which assets appear in a row depends on what is held (C09's business)
+            if [d for d, r in tbl] != [d for d, r in m['table']]:
+                mism.append(dict(what='allocation table dates', impl=[d for d, r in tbl][:6], model=[d for d, r in m['table']][:6]))
     return mism, oracle, status
 
 
@@ -493,6 +482,9 @@ def cmp_signals(case, rec, m, tally):
     mism = []
     if m is None or m.get('out') != 'ok' or rec['err'] is not None or m.get('err') is not None or not m.get('signals'):
         return mism, 'skipped'
+    days = range_days(case)
+    if [t for t, k in rec['clock']] != sorted([d * 86400 + OPEN for d in days] + [d * 86400 + CLOSE for d in days]):
+        return mism, 'skipped'      # a different clock is C12's finding; the cadence oracle follows the implementation's clock
     ms = m['signals']
     tally.discrete += 1
     if rec.get('warmup') != ms['warmup']:
@@ -502,13 +494,14 @@ def cmp_signals(case, rec, m, tally):
         tally.discrete += 2
         if rec['signal_assets'].get(n) != sorted(sm['assets']):
             mism.append(dict(what='assets tracked by signal %s' % n, impl=rec['signal_assets'].get(n), model=sorted(sm['assets'])))
-        bi = [(k, [f2b(x) for x in v]) for k, v in rec['signal_buffers'].get(n, [])]
-        bm = sorted(('%s_%s' % (a, l), list(items)) for a, l, items in sm['buffers'])
+        # which buffers exist and how many observations each holds; the values are judged against the data handler's
+        # recorded prices by the cadence oracle (a wrong price is the data source's business, C06)
+        bi = [(k, len(v)) for k, v in rec['signal_buffers'].get(n, [])]
+        bm = sorted(('%s_%s' % (a, l), len(items)) for a, l, items in sm['buffers'])
         if bi != bm:
             bad = next((i for i, (x, y) in enumerate(zip(bi, bm)) if x != y), min(len(bi), len(bm)))
-            mism.append(dict(what='price buffers of signal %s (first difference at #%d of %d/%d)' % (n, bad, len(bi), len(bm)),
-                             impl=rec['signal_buffers'].get(n, [])[bad:bad + 1],
-                             model=[(k, [b2f(x) for x in v]) for k, v in bm[bad:bad + 1]]))
+            mism.append(dict(what='price buffers of signal %s: (key, number of observations) differ at #%d of %d/%d' % (n, bad, len(bi), len(bm)),
+                             impl=bi[bad:bad + 1], model=bm[bad:bad + 1]))
     return mism, 'compared'
 
 
